@@ -11,7 +11,7 @@ PROP = "C19"
 
 STACK_MAX = [1024] * 24 + [1, 2, 3, 4, 5, 6, 8, 16]
 REC_MAX = [1024] * 21 + [1, 2, 3, 4, 5, 6, 16]
-OUT_INIT = [1, 2, 3, 5, 8, 1024]
+OUT_INIT = [0, 1, 2, 3, 5, 8, 1024]
 OUT_RESIZE = [1.01, 1.25, 1.5, 2.0, 3.7]
 EDGE32 = [0, 1, -1, 2, -2, 3, 5, 7, 8, 10, 31, 32, 33, 63, 64, 100, 127, 128, 255, 256, 32767, 32768, 65535,
           65536, 2147483647, -2147483648, -2147483647, 1073741824, 16777216, 16777217]
@@ -283,6 +283,10 @@ class Gen:
         if rep:
             cnt = r.choice([0, 1, 2, 2, 3, 4, 5]) if r.random() < 0.95 else r.choice([-1, -2, 1000000, 2147483647])
             pre = [["lit", cnt]]
+            if r.random() < 0.02:
+                # a count whose size in bytes does not fit 64 bits (2**61 or 2**61 + 1 items)
+                cnt = 1 << 61
+                pre = [["lit", 1], ["lit", 61], ["w", "lshift"]] + ([["w", "1+"]] if r.random() < 0.5 else [])
         if dest == "stack":
             nd = d + max(0, min(cnt, 8))
         return pre + [["read", x, parser, dest]], nd, 1 + len(pre)
@@ -1167,7 +1171,7 @@ ASSUMPTIONS = [
     "calls at pauses: the machine cannot tell a called word that has finished from one that has paused; the number of "
     "resumes a called word needs is taken from the model",
     "programs whose model execution reaches behaviour that is not defined (shift count outside the cell width, "
-    "float to integer out of range, call() at the recursion limit) are checked for self-consistency and "
+    "float to integer out of range) are checked for self-consistency and "
     "robustness only",
     "only the C++ ForthMachine32/64 API is exercised; the Python wrapper (src/awkward/forth.py, pybind11) cannot "
     "be built in this sandbox",
